@@ -290,30 +290,35 @@ impl<F: Write + Seek> Directory<F> {
                 Ordering::Equal => panic!("internal error: insert duplicate"),
             };
         }
-        match ordering {
-            Ordering::Less => {
-                self.dir_entry_mut(prev_sibling_id).left_sibling = stream_id;
-                let mut sector =
-                    self.seek_within_dir_entry(prev_sibling_id, 68)?;
-                sector.write_le_u32(stream_id)?;
-            }
-            Ordering::Greater => {
-                self.dir_entry_mut(prev_sibling_id).right_sibling = stream_id;
-                let mut sector =
-                    self.seek_within_dir_entry(prev_sibling_id, 72)?;
-                sector.write_le_u32(stream_id)?;
-            }
-            Ordering::Equal => {
-                debug_assert_eq!(prev_sibling_id, parent_id);
-                self.dir_entry_mut(parent_id).child = stream_id;
-                let mut sector = self.seek_within_dir_entry(parent_id, 76)?;
-                sector.write_le_u32(stream_id)?;
-            }
-        }
         // TODO: rebalance tree
 
-        // Write new entry to underyling file.
-        self.write_dir_entry(stream_id)?;
+        // Write the new entry to the underlying file, then the link to it.
+        // The entry is linked into the in-memory tree only once both writes
+        // have succeeded, so that a failed insertion leaves the tree in memory
+        // and the tree in the file in agreement.
+        let link_offset = match ordering {
+            Ordering::Less => 68,
+            Ordering::Greater => 72,
+            Ordering::Equal => {
+                debug_assert_eq!(prev_sibling_id, parent_id);
+                76
+            }
+        };
+        let written = self.write_dir_entry(stream_id).and_then(|()| {
+            let mut sector =
+                self.seek_within_dir_entry(prev_sibling_id, link_offset)?;
+            sector.write_le_u32(stream_id)
+        });
+        if let Err(err) = written {
+            *self.dir_entry_mut(stream_id) = DirEntry::unallocated();
+            return Err(err);
+        }
+        let prev_sibling = self.dir_entry_mut(prev_sibling_id);
+        match ordering {
+            Ordering::Less => prev_sibling.left_sibling = stream_id,
+            Ordering::Greater => prev_sibling.right_sibling = stream_id,
+            Ordering::Equal => prev_sibling.child = stream_id,
+        }
         Ok(stream_id)
     }
 
